@@ -303,3 +303,20 @@ Definition aval_get_any (d k : aval) : result aval :=
               end
   | _ => Err TypeError
   end.
+
+(* ---- builder mode (readers): feature objects as tree values; parent pointers are not represented ---- *)
+Definition py_add_relation (f : feature) (r : relation) : feature :=
+  match f with Feature i rs => Feature i (rs ++ [r]) end.
+Definition py_add_attribute (f : feature) (a : attr) : feature :=
+  match f with
+  | Feature i rs => Feature {| f_name := f_name i; f_abstract := f_abstract i; f_type := f_type i; f_cmin := f_cmin i;
+                               f_cmax := f_cmax i; f_attrs := f_attrs i ++ [a] |} rs
+  end.
+(* 'k' in d  /  d.get(k) *)
+Definition aval_has (d : aval) (k : string) : bool :=
+  match d with VMap kv => existsb (fun p => String.eqb (fst p) k) kv | _ => false end.
+Definition aval_get_default (d : aval) (k : string) (dflt : aval) : aval :=
+  match d with
+  | VMap kv => match find (fun p => String.eqb (fst p) k) kv with Some p => snd p | None => dflt end
+  | _ => dflt
+  end.
